@@ -57,7 +57,7 @@ func (b *readBook) get(remote string) int64 {
 	return b.n[remote]
 }
 
-func runE2E(casesPath string, nrand int) {
+func runE2E(casesPath string, nrand int, bz []zcase) {
 	var zs []zcase
 	vh.Must(vh.ReadCases(casesPath, func(raw json.RawMessage) error {
 		var z zcase
@@ -154,8 +154,11 @@ func runE2E(casesPath string, nrand int) {
 		for _, p := range pauses {
 			pauseAt[p] = true
 		}
-		rev := vh.Ev{"ev": "run", "proto": "Http1", "cls": cls, "lens": r.lens, "units": r.lens, "mode": mode,
-			"conts": 0, "shapes": shapes, "cuts": cuts, "pauses": pauses, "transport": transport, "peek": peek}
+		rev := vh.Ev{"ev": "run", "proto": "Http1", "cls": cls, "lens": r.lens, "units": r.lens, "ends": r.ends, "uends": r.ends, "mode": mode,
+			"conts": 0, "cuts": cuts, "pauses": pauses, "transport": transport, "peek": peek}
+		if len(shapes) <= 16 {
+			rev["shapes"] = shapes
+		}
 		if strings.HasPrefix(mode, "list:") {
 			l := strings.Split(mode[5:], ",")
 			rev["listn"] = len(l)
@@ -196,7 +199,7 @@ func runE2E(casesPath string, nrand int) {
 			return int64(plain)
 		}
 		// replies are consumed in the background: statuses in order
-		statuses := make(chan int, 64)
+		statuses := make(chan int, len(shapes)+64)
 		go func() {
 			br := bufio.NewReader(c)
 			for {
@@ -215,11 +218,7 @@ func runE2E(casesPath string, nrand int) {
 				statuses <- resp.StatusCode
 			}
 		}()
-		ends, acc := []int{}, 0
-		for _, l := range r.lens {
-			acc += l
-			ends = append(ends, acc)
-		}
+		ends := r.ends
 		byTok := map[string]int{}
 		for k, mm := range r.msgs {
 			byTok[mm.marker] = k + 1
@@ -362,6 +361,15 @@ func runE2E(casesPath string, nrand int) {
 		}
 	}
 	rng := rand.New(rand.NewSource(vh.Seed() + 7))
+	// the burst class: a few hundred pipelined requests written in one piece / cut inside a request, then silence
+	for bi, z := range bz {
+		z := z
+		if z.Scale < 1 || z.Scale > 100 || len(z.Cuts) > 2 {
+			continue
+		}
+		kind := []string{"fixed", "auto", "inspector", "tls"}[bi%4]
+		one("e2e-burst", kind, burstShapes(len(z.Frames)*z.Scale), func(r *run) ([]int, []int) { return burstCuts(r, z), nil })
+	}
 	for k := 0; k < nrand; k++ {
 		shapes := []int{1, 0, 2, 3, 0, 1}
 		one("e2e-random", []string{"fixed", "auto", "inspector", "tls"}[k%4], shapes, func(r *run) ([]int, []int) {
